@@ -201,7 +201,7 @@ pub fn with_prologue(mut sc: Scenario, name: &str, extra: &[Op]) -> Scenario {
     sc
 }
 
-/// Two replicas; replica 0 has edited element x nine times (its revision index reaches 10), replica 1
+/// Two replicas; replica 0 has edited element x eight times (revision index 9; the next edit reaches 10), replica 1
 /// once, concurrently: exercises the numeric (not textual) comparison of revision indexes.
 pub fn long_chain_scenario(name: &str, depth: usize, extra: &[Op]) -> Scenario {
     let mut docs = vec![json!({"l♭":[x(), y()]})];
@@ -212,12 +212,14 @@ pub fn long_chain_scenario(name: &str, depth: usize, extra: &[Op]) -> Scenario {
     docs.push(json!({"l♭":[{"_id":"x","v":7}, y(), z()]})); // 11
     docs.push(json!({"l♭":[y()]})); // 12
     let mut prologue = vec![Op::Upd(0, 0), Op::Commit(0, 0), Op::Sync(1, 0)];
-    for k in 0..9 {
+    // eight edits: x is at revision index 9 on replica 0; one more edit crosses to two digits
+    for k in 0..8 {
         prologue.push(Op::Upd(0, 1 + k));
         if k % 3 == 2 {
             prologue.push(Op::Commit(0, 0));
         }
     }
+    prologue.push(Op::Commit(0, 0));
     prologue.extend_from_slice(&[Op::Upd(1, 10), Op::Commit(1, 0)]);
     let mut alphabet = vec![Op::Sync(0, 1), Op::Sync(1, 0), Op::Upd(0, 11), Op::Upd(1, 11), Op::Upd(1, 12), Op::Commit(0, 0), Op::Commit(1, 0)];
     alphabet.extend_from_slice(extra);
